@@ -106,6 +106,8 @@ pub(crate) struct Exec {
     pub knobs: Knobs,
     pub clock: u64,
     pub parks: u32,
+    /// weak compare-exchanges performed so far in this execution
+    pub weak_cas: u32,
     pub threads: Vec<(ThreadId, PerThread)>,
     pub regions: BTreeMap<usize, Region>,
     pub cells: BTreeMap<usize, Rc<loom::cell::UnsafeCell<()>>>,
@@ -131,6 +133,7 @@ impl Exec {
             knobs: Knobs::default(),
             clock: 0,
             parks: 0,
+            weak_cas: 0,
             threads: Vec::new(),
             regions: BTreeMap::new(),
             cells: BTreeMap::new(),
@@ -221,6 +224,21 @@ pub fn knobs() -> Knobs {
 /// violation, before the panic that aborts the execution.
 pub fn on_violation(f: Box<dyn Fn(&str)>) {
     ON_VIOLATION.with(|c| *c.borrow_mut() = Some(f));
+}
+
+/// A weak compare-exchange may fail although the word holds the expected
+/// value; loom's never does.  In the spurious environments (`spurious_park ==
+/// Some(n)`) the n-th weak compare-exchange of the execution fails that way.
+/// (The unmodified crate has no weak compare-exchange.)
+pub(crate) fn weak_cas_fails() -> bool {
+    with(|e| {
+        if !e.active {
+            return false;
+        }
+        let n = e.weak_cas;
+        e.weak_cas += 1;
+        e.knobs.spurious_park == Some(n)
+    })
 }
 
 /// First call of every execution (inside `loom::model`'s closure).
